@@ -301,11 +301,12 @@ func c10Programs(c *Check) []*Program {
 		{Name: "lib.tsh", Stmts: []Stmt{
 			def("indent", sl("--")),
 			def("depth", il(2)),
+			def("reach", bin("*", vr("depth"), il(4))), // initialised from the global before it: the order of definitions is the order of the text
 			def("calls", il(0)),
 			fn("pad", []Param{{"count", TInt}}, []Type{TString}, def("out", sl("")), For{Kind: ForThree, Init: def("step", il(0)), Cond: cmp("<", vr("step"), vr("count")), Post: IncDec{"step", true}, Body: []Stmt{OpAssign{"out", "+", vr("indent")}}}, ret(vr("out"))),
 			fn("Fmt", []Param{{"txt", TString}}, []Type{TString}, IncDec{"calls", true}, def("lead", call("pad", vr("depth"))), ret(bin("+", vr("lead"), vr("txt")))),
 			fn("Level", nil, []Type{TInt}, ret(bin("+", bin("*", vr("depth"), il(10)), vr("calls")))),
-			fn("Bump", nil, []Type{TInt}, IncDec{"depth", true}, ret(vr("depth"))),
+			fn("Bump", nil, []Type{TInt}, IncDec{"depth", true}, ret(bin("+", vr("depth"), vr("reach")))),
 		}},
 	}}
 	// p5: an external program called by identifier (program names and identifiers are different name spaces); the
@@ -439,8 +440,13 @@ func checkC10(c *Check) {
 			harvest[w] = "cmd-name"
 		}
 	}
-	for _, w := range []string{"fresh_name_a", "Zq7", "another_fresh_1", "veryUnlikelyName42", "q_q", "x9y8", "Abc_def", "k0"} {
-		harvest[w] = "fresh-control"
+	for _, w := range []string{"fresh_name_a", "Zq7", "another_fresh_1", "veryUnlikelyName42", "q_q", "x9y8", "Abc_def", "k0", "aaa_first", "zzz_last", "AAA_First", "ZZZ9", "a0", "z"} {
+		harvest[w] = "fresh-control" // the last six sort before / after every name of the programs
+	}
+	// spellings outside the identifier alphabet that a byte-wise or Unicode-class scanner might let through: today
+	// they are refused, which the property allows; accepted, they must behave like any other name
+	for _, w := range []string{"\u00b5s", "caf\u00e9", "\u00aa", "n\u00ba", "\u00fcber", "x\u00b2", "\u00c5ngstrom", "\u03bb", "na\u00efve"} {
+		harvest[w] = "non-ascii"
 	}
 	// near misses of the compiler-owned spellings: a prefix, a suffix, a neighbouring name. They are ordinary user
 	// names today; a back-end that starts to depend on a prefix or pattern turns them into captures.
